@@ -336,6 +336,10 @@ func Run(r *sim.R, prop string) {
 		inlinePolicyCase(r, prop)
 		return
 	}
+	if prop == "C13" && t.Chance(1, 32, "bare-primitive-for-a-slice-field") {
+		primitiveAsListCase(r, prop)
+		return
+	}
 	if prop == "C14" && t.Chance(1, 32, "resolver-answers-two-settings-with-one-text") {
 		resolverListCase(r, prop)
 		return
